@@ -244,25 +244,45 @@ def projector_rule(ctx):
     r = ctx.rule("R17.2", "projM is defined as Identity - projP in both dimensions; M2 = I - M1 (2-D), M2 = I - (M1 + M3) (3-D)", min_instances=4)
     pf = repo.cls(PFM)
     f = pf.methods["__Spectral_Decomposition"]
-    assigns = [n for n in ast.walk(f.node) if isinstance(n, ast.Assign) and any(isinstance(t, ast.Name) and t.id == "projM" for t in n.targets)]
+    rets = [n for n in ast.walk(f.node) if isinstance(n, ast.Return) and isinstance(n.value, ast.Tuple) and len(n.value.elts) == 2 and all(isinstance(e, ast.Name) for e in n.value.elts)]
+    if not rets:
+        raise AnalysisError("R17.2: __Spectral_Decomposition no longer returns the pair (projP, projM) by name")
+    pP, pM = (e.id for e in rets[-1].value.elts)
+    assigns = [n for n in ast.walk(f.node) if isinstance(n, ast.Assign) and any(isinstance(t, ast.Name) and t.id == pM for t in n.targets)]
     for a in assigns:
         r.instance(fn=f.qualname)
         v = a.value
-        ok = isinstance(v, ast.BinOp) and isinstance(v.op, ast.Sub) and isinstance(v.left, ast.Call) and (dotted(v.left.func) or "") == "np.eye" and isinstance(v.right, ast.Name) and v.right.id == "projP"
+        ok = isinstance(v, ast.BinOp) and isinstance(v.op, ast.Sub) and isinstance(v.left, ast.Call) and (dotted(v.left.func) or "") in ("np.eye", "np.identity") and isinstance(v.right, ast.Name) and v.right.id == pP
         if ok:
             r.ok(norm_text(a))
         else:
-            r.fail(f.qualname, f"projM:{norm_text(a.value)[:40]}", f.file, a.lineno, "__Spectral_Decomposition", f"projM is not derived as np.eye(n) - projP: {norm_text(a)}")
+            r.fail(f.qualname, f"projM:{norm_text(a.value)[:40]}", f.file, a.lineno, "__Spectral_Decomposition", f"the negative projector is not derived as Identity - (positive projector): {norm_text(a)}")
     if len(assigns) < 2:
-        raise AnalysisError("R17.2: fewer than two definitions of projM")
+        raise AnalysisError("R17.2: fewer than two definitions of the negative projector")
     g = pf.methods["_Eigen_values_vectors_projectors"]
-    for a in [n for n in ast.walk(g.node) if isinstance(n, ast.Assign) and any(isinstance(t, ast.Name) and t.id == "M2" for t in n.targets)]:
+    lists = [n.value for n in ast.walk(g.node) if isinstance(n, ast.Assign) and isinstance(n.value, ast.List) and len(n.value.elts) in (2, 3) and all(isinstance(e, ast.Name) for e in n.value.elts)]
+    # the lists of eigen-projector matrices: their middle / last name must be the complement of the others
+    seen = 0
+    for lst in lists:
+        names = [e.id for e in lst.elts]
+        defs = {nm: [n.value for n in ast.walk(g.node) if isinstance(n, ast.Assign) and any(isinstance(t, ast.Name) and t.id == nm for t in n.targets)] for nm in names}
+        comp = [nm for nm in names if any(isinstance(v, ast.BinOp) and isinstance(v.op, ast.Sub) for v in defs[nm])]
+        if not comp:
+            continue  # e.g. the list of vectors m1, m2 (built by projection calls)
+        seen += 1
         r.instance(fn=g.qualname)
-        t = norm_text(a.value).replace(" ", "")
-        if t in ("I_e_pg-M1", "I_e_pg-(M1+M3)"):
-            r.ok(norm_text(a))
+        nm = comp[-1]
+        others = sorted(set(names) - {nm})
+        cands = [x for x in defs[nm] if isinstance(x, ast.BinOp) and isinstance(x.op, ast.Sub)]
+        v = next((x for x in cands if sorted(y.id for y in ast.walk(x.right) if isinstance(y, ast.Name)) == others), cands[-1])
+        rhs = sorted(x.id for x in ast.walk(v.right) if isinstance(x, ast.Name))
+        only_add = all(isinstance(x, (ast.Name, ast.BinOp, ast.Add, ast.Load)) and (not isinstance(x, ast.BinOp) or isinstance(x.op, ast.Add)) for x in ast.walk(v.right))
+        if isinstance(v.left, ast.Name) and rhs == others and only_add:
+            r.ok(f"{nm} = {norm_text(v)}: complement of {others}")
         else:
-            r.fail(g.qualname, f"M2:{t[:40]}", g.file, a.lineno, "_Eigen_values_vectors_projectors", f"the remaining eigen-projector is not the complement of the others: {norm_text(a)}")
+            r.fail(g.qualname, f"complement:{len(names)}", g.file, v.lineno, "_Eigen_values_vectors_projectors", f"the remaining eigen-projector `{nm}` is not Identity minus the sum of the others ({others}): {norm_text(v)}")
+    if seen < 2:
+        raise AnalysisError("R17.2: eigen-projector lists (2-D and 3-D) not found")
 
 
 def mask_rule(ctx):
@@ -317,11 +337,31 @@ def mask_rule(ctx):
     for n in ast.walk(g.node):
         if isinstance(n, ast.Subscript) and isinstance(n.slice, ast.Name) and n.slice.id in elem_only and isinstance(n.value, (ast.Name, ast.BinOp, ast.Call)):
             base = {x.id for x in ast.walk(n.value) if isinstance(x, ast.Name)}
-            if base & (field | {"M1", "M2", "M3"}):
+            if base & field or isinstance(n.ctx, ast.Store):
                 flagged.setdefault(n.slice.id, n)
-    for name, node in sorted(flagged.items()):
+    import copy
+
+    def mask_shape(varname):
+        """the mask expression behind an element-only index, identifiers erased (stable under renaming)"""
+        a = elem_only[varname]
+        wh = [c for c in ast.walk(a.value) if isinstance(c, ast.Call) and (dotted(c.func) or "") == "np.where"]
+        if not wh:
+            # derived through set operations: use the shapes of its sources
+            srcs = sorted(mask_shape(x.id) for x in ast.walk(a.value) if isinstance(x, ast.Name) and x.id in elem_only and x.id != varname)
+            return "derived(" + ",".join(srcs) + ")"
+        m = wh[0].args[0]
+        if isinstance(m, ast.Name):
+            d = [n for n in assigns if any(isinstance(t, ast.Name) and t.id == m.id for t in n.targets)]
+            m = d[0].value if d else m
+        m = copy.deepcopy(m)
+        for x in ast.walk(m):
+            if isinstance(x, ast.Name):
+                x.id = "_"
+        return norm_text(m)
+
+    for name, node in sorted(flagged.items(), key=lambda kv: kv[1].lineno):
         r.instance(fn=g.qualname)
-        r.fail(g.qualname, f"element-only-mask:{name}", g.file, node.lineno, "_Eigen_values_vectors_projectors",
+        r.fail(g.qualname, f"element-only-mask:{mask_shape(name)}", g.file, node.lineno, "_Eigen_values_vectors_projectors",
                f"`{name}` keeps only axis 0 of np.where(<mask over (Ne, nPg)>) and is then used as the sole index ({norm_text(node)}): every Gauss point of an element is treated like the one that matched (mixed degenerate / generic strain states in one element get the wrong eigen-projectors or NaN)")
 
 
